@@ -21,6 +21,20 @@ std::string filler(Rng& r, size_t n) {
     return s;
 }
 
+// exactly n bytes; one call in four mixes in multi-byte UTF-8 characters (2-, 3- and 4-byte forms, incl. the edges next to the
+// surrogate range, the non-character block U+FDD0..U+FDEF and the last valid code point; no control or non-characters)
+std::string ufiller(Rng& r, size_t n) {
+    if (n < 4 || !r.chance(0.25)) return filler(r, n);
+    static const char* mb[] = {"\xC2\xA0", "\xC3\xA9", "\xDF\xBF", "\xE0\xA0\x80", "\xE2\x82\xAC", "\xED\x9F\xBF", "\xEE\x80\x80", "\xEF\xB7\x8F",
+                               "\xEF\xB7\xB0", "\xEF\xBF\xBD", "\xF0\x90\x80\x80", "\xF0\x9F\x98\x80", "\xF4\x8F\xBF\xBD"};
+    std::string s;
+    while (s.size() < n) {
+        if (n - s.size() >= 4 && r.chance(0.4)) s += mb[r.below(13)];
+        else s.push_back((char)('a' + r.below(26)));
+    }
+    return s;
+}
+
 size_t biased_len(Rng& r) {
     auto k = r.below(100);
     if (k < 50) return r.below(24);
@@ -41,7 +55,7 @@ ns_t biased_delay(Rng& r, bool allow_long) {
 
 Props gen_user_props(Rng& r, int maxn) {
     Props p; int n = (int)r.below(maxn + 1);
-    for (int i = 0; i < n; ++i) p.push_back(PU("k" + std::to_string(r.below(4)), filler(r, r.below(6))));
+    for (int i = 0; i < n; ++i) p.push_back(PU("k" + std::to_string(r.below(4)), ufiller(r, r.below(9))));
     return p;
 }
 
@@ -50,8 +64,8 @@ Props gen_publish_props(Rng& r, bool allow_alias, uint16_t alias_max) {
     if (r.chance(0.5)) return p;
     if (r.chance(0.3)) p.push_back(P(P_PAYLOAD_FORMAT, (uint32_t)r.below(2)));
     if (r.chance(0.3)) p.push_back(P(P_MSG_EXPIRY, (uint32_t)r.pick<int64_t>({0, 1, 60, 65536, 4294967295ll})));
-    if (r.chance(0.3)) p.push_back(PS(P_CONTENT_TYPE, "ct/" + filler(r, r.below(8))));
-    if (r.chance(0.3)) p.push_back(PS(P_RESPONSE_TOPIC, "r/" + filler(r, 1 + r.below(8))));
+    if (r.chance(0.3)) p.push_back(PS(P_CONTENT_TYPE, "ct/" + ufiller(r, r.below(8))));
+    if (r.chance(0.3)) p.push_back(PS(P_RESPONSE_TOPIC, "r/" + ufiller(r, 1 + r.below(8))));
     if (r.chance(0.3)) { std::string b; size_t n = r.below(10); for (size_t i = 0; i < n; ++i) b.push_back((char)r.below(256)); p.push_back(PS(P_CORRELATION, b)); }
     if (allow_alias && alias_max && r.chance(0.3)) p.push_back(P(P_TOPIC_ALIAS, (uint32_t)r.range(1, alias_max)));
     for (auto& u : gen_user_props(r, 3)) p.push_back(u);
@@ -107,11 +121,11 @@ Plan generate(uint64_t seed, const std::string& focus) {
 
     // ---------------------------------------------------------------- client configuration
     auto& cc = k.client;
-    cc.client_id = r.chance(0.2) ? "" : "cid-" + filler(r, r.below(12));
-    if (r.chance(0.4)) cc.username = "user" + filler(r, r.below(5));
+    cc.client_id = r.chance(0.2) ? "" : "cid-" + ufiller(r, r.below(12));
+    if (r.chance(0.4)) cc.username = "user" + ufiller(r, r.below(7));
     if (r.chance(0.4)) cc.password = "pw" + filler(r, r.below(5));
     if (r.chance(0.3)) {
-        Will wl; wl.topic = "will/" + filler(r, 3); wl.payload = filler(r, r.below(20)); wl.qos = (uint8_t)r.below(3); wl.retain = r.chance(0.3);
+        Will wl; wl.topic = "will/" + ufiller(r, 3 + r.below(4)); wl.payload = filler(r, r.below(20)); wl.qos = (uint8_t)r.below(3); wl.retain = r.chance(0.3);
         if (r.chance(0.5)) { wl.props.push_back(P(P_WILL_DELAY, (uint32_t)r.below(100))); if (r.chance(0.5)) wl.props.push_back(PS(P_CONTENT_TYPE, "x")); for (auto& u : gen_user_props(r, 2)) wl.props.push_back(u); }
         cc.will = wl;
     }
@@ -175,11 +189,11 @@ Plan generate(uint64_t seed, const std::string& focus) {
         if (r.chance(focus == "C12" ? 0.4 : 0.1)) c.server_ka = (uint16_t)r.pick<int>({0, 1, 2, 5, 60});
         if (r.chance(p)) c.session_expiry = (uint32_t)r.pick<int>({0, 60, 3600});
         if (many) {
-            if (r.chance(0.3)) c.assigned_cid = "assigned-" + filler(r, 4);
-            if (r.chance(0.3)) c.reason_string = "rs-" + filler(r, 4);
-            if (r.chance(0.3)) c.response_info = "ri/" + filler(r, 4);
+            if (r.chance(0.3)) c.assigned_cid = "assigned-" + ufiller(r, 4 + r.below(3));
+            if (r.chance(0.3)) c.reason_string = "rs-" + ufiller(r, 4 + r.below(3));
+            if (r.chance(0.3)) c.response_info = "ri/" + ufiller(r, 4 + r.below(3));
             if (r.chance(0.3)) c.server_ref = "srv-" + filler(r, 4);
-            int nu = (int)r.below(3); for (int i = 0; i < nu; ++i) c.user.push_back({"ck" + std::to_string(i), filler(r, 3)});
+            int nu = (int)r.below(3); for (int i = 0; i < nu; ++i) c.user.push_back({"ck" + std::to_string(i), ufiller(r, 3 + r.below(4))});
         }
     }
     if (hostile) { bk.hostile = true; }
@@ -281,7 +295,7 @@ Plan generate(uint64_t seed, const std::string& focus) {
         case SK::CancelOp: s.a = (int)r.below(1000); s.b = (int)r.pick<int>({0, 1, 2, 2, 2}); break;
         case SK::Disconnect: {
             s.a = (int)r.pick<int>({0x00, 0x00, 0x04});
-            if (r.chance(0.4)) { if (r.chance(0.5)) s.props.push_back(PS(P_REASON_STRING, "bye" + filler(r, biased_len(r) % 300))); if (r.chance(0.3)) s.props.push_back(P(P_SESSION_EXPIRY, (uint32_t)r.below(100))); for (auto& u : gen_user_props(r, 2)) s.props.push_back(u); }
+            if (r.chance(0.4)) { if (r.chance(0.5)) s.props.push_back(PS(P_REASON_STRING, "bye" + ufiller(r, biased_len(r) % 300))); if (r.chance(0.3)) s.props.push_back(P(P_SESSION_EXPIRY, (uint32_t)r.below(100))); for (auto& u : gen_user_props(r, 2)) s.props.push_back(u); }
             s.c = r.chance(0.2);
             run_pending = true;
             break;
@@ -300,7 +314,7 @@ Plan generate(uint64_t seed, const std::string& focus) {
         }
         case SK::BrokerDisconnect:
             s.a = (int)r.pick<int>({0x00, 0x80, 0x81, 0x82, 0x83, 0x87, 0x89, 0x8b, 0x8d, 0x8e, 0x93, 0x94, 0x95, 0x96, 0x97, 0x98, 0x9c, 0x9d, 0xa0, 0xa1, 0xa2});
-            if (r.chance(0.4)) { s.props.push_back(PS(P_REASON_STRING, "srv" + filler(r, 3))); if (r.chance(0.3)) s.props.push_back(PS(P_SERVER_REF, "other")); }
+            if (r.chance(0.4)) { s.props.push_back(PS(P_REASON_STRING, "srv" + ufiller(r, 3 + r.below(4)))); if (r.chance(0.3)) s.props.push_back(PS(P_SERVER_REF, "other")); }
             break;
         case SK::BrokerRestart: s.a = r.chance(0.5); break;
         case SK::FByteCut:
